@@ -216,3 +216,38 @@ def errors(k: int) -> bool:
     proto, dongle, world = make_stack(c04._device("sign"))
     out = handle(proto, req)
     return out == ("reply", {"errorcode": -102}) and world.exchanges == 0
+
+
+# ------------------------------------------------------------------ what is relayed for signing, in both sighash modes
+
+RELAY_TXS = [(TX_SIGNED_1IN, None), (mk_tx([(pat(32, 1), 0, b"\x00" + push(SIG) + push(REDEEM), 0xfffffffe),
+                                            (pat(32, 4), 7, push(SIG) + push(SIG) + push(REDEEM), 3)], [(1000, pat(25, 2))], version=2, locktime=17), None)]
+RELAY_CLEARED = [mk_tx([(pat(32, 1), 0, b"\x00\x00" + push(REDEEM), 0xffffffff)], [(200000000, pat(25, 2)), (4800000000, pat(23, 3))]),
+                 mk_tx([(pat(32, 1), 0, b"\x00\x00" + push(REDEEM), 0xfffffffe), (pat(32, 4), 7, b"\x00\x00" + push(REDEEM), 3)],
+                       [(1000, pat(25, 2))], version=2, locktime=17)]
+
+
+@obligation(tier="quick", parts=2, timeout=200, part_names=["legacy", "segwit"],
+            bounds="the transaction the DEVICE receives in an authorized sign, for both sighash modes (partition) and 2 partially signed "
+                   "catalogue transactions (symbolic selection), input index symbolic; and: an empty script-sig is answered -102 in both modes",
+            examples=[(0, dict(t=0, inp=0, empty=False)), (1, dict(t=1, inp=1, empty=False)), (1, dict(t=0, inp=0, empty=True))])
+def relayed_form(t: int, inp: int, empty: bool) -> bool:
+    """
+    pre: 0 <= t <= 1
+    pre: 0 <= inp <= 0xffffffff
+    post: _
+    """
+    from sim.ledger import SimDevice
+    mode = ["legacy", "segwit"][part()]
+    req = valid_request("sign", 0 if mode == "legacy" else 2)
+    req["message"]["input"] = inp
+    d = SimDevice()
+    proto, dongle, world = make_stack(d, bytes_model=True)
+    if empty:
+        req["message"]["tx"] = BAD_TXS[0][1].hex()
+        return handle(proto, req) == ("reply", {"errorcode": -102}) and world.exchanges == 0
+    req["message"]["tx"] = RELAY_TXS[t][0].hex()
+    out = handle(proto, req)
+    if out[0] != "reply" or out[1].get("errorcode") != 0:
+        return False
+    return d.parsed_sign()["tx"] == list(RELAY_CLEARED[t])
